@@ -253,6 +253,12 @@ func Do(hc *http1.HostClient, req *protocol.Request, timeout time.Duration) *Out
 
 // DoWith is Do with the Response prepared by the caller first (e.g. SkipBody).
 func DoWith(hc *http1.HostClient, req *protocol.Request, timeout time.Duration, prep func(*protocol.Response)) *Outcome {
+	return DoInto(hc, req, nil, timeout, prep)
+}
+
+// DoInto is DoWith into a Response object the caller owns and keeps using for its next
+// calls (a request loop with one Response, never released); nil takes one from the pool.
+func DoInto(hc *http1.HostClient, req *protocol.Request, own *protocol.Response, timeout time.Duration, prep func(*protocol.Response)) *Outcome {
 	done := make(chan *Outcome, 1)
 	go func() {
 		o := &Outcome{}
@@ -263,7 +269,10 @@ func DoWith(hc *http1.HostClient, req *protocol.Request, timeout time.Duration, 
 			}
 			done <- o
 		}()
-		resp := protocol.AcquireResponse()
+		resp := own
+		if resp == nil {
+			resp = protocol.AcquireResponse()
+		}
 		if prep != nil {
 			prep(resp)
 		}
@@ -276,7 +285,9 @@ func DoWith(hc *http1.HostClient, req *protocol.Request, timeout time.Duration, 
 		}
 		// back to the pool, as applications do: the next call (possibly through a client
 		// with other options) gets a recycled Response
-		protocol.ReleaseResponse(resp)
+		if own == nil {
+			protocol.ReleaseResponse(resp)
+		}
 	}()
 	t := time.NewTimer(timeout)
 	defer t.Stop()
